@@ -19,7 +19,7 @@ INFO = {
                    "the barycentric evaluation updates every accumulator on every node (no skipped node), scales all results "
                    "by +-1/n with the sign depending on n > 1; extension stores each new value by plain assignment (the tail is "
                    "overwritten, not accumulated) computed from values and nodes below k only; Lagrange multiplication is "
-                   "doubling of both operands followed by the pointwise product over all positions. NOT decided: that these "
+                   "doubling of both operands followed by the pointwise product over all positions; the next-order root is looked up only for the shifted transform. NOT decided: that these "
                    "routines equal direct evaluation / interpolation as values (a numerical identity over loops).",
     "trusted_base": ["rustc type checker and MIR construction (nightly)", "expression reconstruction over MIR (sa/expr.py)"],
     "assumptions": ["field arithmetic is correct (C09)"],
